@@ -99,6 +99,25 @@ def _literal(test, pol) -> Tuple[ast.AST, bool]:
         return test, pol
 
 
+def _own_breaks(loop):
+    """break statements that leave `loop` itself (not a loop nested in it)"""
+    out = []
+
+    def rec(stmts):
+        for s_ in stmts:
+            if isinstance(s_, ast.Break):
+                out.append(s_)
+            elif isinstance(s_, (ast.For, ast.While, ast.AsyncFor, ast.FunctionDef, ast.AsyncFunctionDef, ast.ClassDef)):
+                rec(getattr(s_, "orelse", []) if isinstance(s_, (ast.For, ast.While, ast.AsyncFor)) else [])
+            else:
+                for f_ in ("body", "orelse", "finalbody"):
+                    rec(getattr(s_, f_, []) or [])
+                for h_ in getattr(s_, "handlers", []) or []:
+                    rec(h_.body)
+    rec(loop.body)
+    return out
+
+
 def path_conditions(fn, target) -> List[Tuple[ast.AST, bool]]:
     """(test, polarity) facts that hold whenever `target` is reached, whatever style the branching is written in:
     the tests of the enclosing if/while statements, and for every earlier sibling `if c: <leaves>` (guard clause) the fact
@@ -143,6 +162,15 @@ def path_conditions(fn, target) -> List[Tuple[ast.AST, bool]]:
                     and not (isinstance(st.test, ast.Constant) and st.test.value):
                 # a loop without break is left only when its test fails (`while x in used: x += 1` -> afterwards x is not in used)
                 out.append(_literal(st.test, False))
+            elif isinstance(st, (ast.For, ast.While)) and st.orelse and _leaves(st.orelse):
+                # `for ...: if c: break   else: raise`: the code after the loop runs only when the loop was left by its break, so what
+                # holds at the (single) break of this loop holds there too
+                brks = [n for n in _own_breaks(st)]
+                if len(brks) == 1:
+                    inside = {id(x) for x in ast.walk(st)}
+                    for t_, pol_ in path_conditions(fn, brks[0]):
+                        if id(t_) in inside or any(id(x) in inside for x in ast.walk(t_)):
+                            out.append((t_, pol_))
         if k + 1 < len(p):
             st = block[idx]
             nxt = p[k + 1][0]
